@@ -87,3 +87,30 @@ def definite(interp: Interp, t) -> bool:
         return False
     names = {fname(s) for s in T.subterms(T.to_term(t))}
     return not (names & interp.unmodelled)
+
+
+# ---------------------------------------------------------------------------- direction formulas
+def mean_direction_ref(a, b):
+    return sp.atan2(b, a) * 180 / sp.pi
+
+
+def spread_ref(a, b):
+    return sp.sqrt(2 - 2 * sp.sqrt(a**2 + b**2)) * 180 / sp.pi
+
+
+def weighted_ref(prop, e1d, fmin=FMIN, fmax=FMAX):
+    R = band(fmin, fmax)
+    return TRAPZ_F(SEL(FILL0(prop), R) * SEL(e1d, R)) / moment_ref(e1d, sp.Integer(0), fmin, fmax)
+
+
+def peak_index_ref(e1d, fmin=FMIN, fmax=FMAX):
+    return op("argmax", op("where", band(fmin, fmax), e1d, sp.Integer(0)), Str("frequency"))
+
+
+def at_index(x, idx):
+    return op("sel", x, idx)
+
+
+def depth_ref():
+    d = dsv("depth")
+    return op("where", op("isnull", d), sp.oo, d)
